@@ -73,3 +73,12 @@ Example C01_nonvacuous :
   aug_edges [1; 2; 3; 4]%N [(1, 2); (1, 3); (2, 4); (3, 4)]%N [3%N] [] 10%N 11%N =
   [(1, 2); (1, 3); (2, 4); (3, 4); (10, 1); (10, 3); (4, 11)]%N.
 Proof. vm_compute. reflexivity. Qed.
+
+(* the checker that decides C01 on every answer of the implementation (engine c01, E2v) *)
+From FP Require Import Checkers CheckersProofs.
+Theorem C01_route_checker_decides_the_route_predicate : forall V E S T simple r,
+  valid_route_b V E S T simple r = true <->
+  r <> [] /\ (forall v, In v r -> In v V) /\ incl (pairs r) E /\
+  is_start E S (hd 0%N r) = true /\ is_end E T (last r 0%N) = true /\ (simple = true -> NoDup r).
+Proof. exact valid_route_b_correct. Qed.
+Print Assumptions C01_route_checker_decides_the_route_predicate.
